@@ -945,3 +945,26 @@ def values_at (repo, module, g, env, node, expr, cls=None, limit=60):
     except TypeError: v = repr(v)
     out.add(v)
   return out
+
+def origins_satisfy (g, node, name, ok_at, _depth=0, _none_excluded=None):
+  """does every value local `name` can hold at CFG `node` come from a point where ok_at(g, n, local_name) held?
+  Copies through other locals are followed; origins that are the constant None are ignored when the use itself is
+  guarded by `name is not None` / truthiness (they cannot reach it)."""
+  if ok_at(g, node, name): return True
+  if _depth > 6: return False
+  if _none_excluded is None:
+    fs = fact_strs(g, node)
+    _none_excluded = ('%s is not None' % name) in fs or ('%s:truthy' % name) in fs
+  IN, defn = reaching_defs(g, name)
+  if not IN[node]: return False
+  for d in IN[node]:
+    if d is g.entry: return False
+    tt, v, kind = defn[d]
+    if kind == 'assign' and isinstance(v, ast.Constant) and v.value is None:
+      if _none_excluded: continue
+      return False
+    if kind == 'assign' and isinstance(v, ast.Name):
+      if not origins_satisfy(g, d, v.id, ok_at, _depth + 1, _none_excluded): return False
+      continue
+    return False
+  return True
